@@ -22,6 +22,17 @@ def parseScaled (scale : Nat) (j : Json) : Except String Int := do
   else throw s!"number {j.compress} is not a multiple of 1/{scale}"
 
 def pVal (j : Json) : Except String Int := parseScaled vScale j
+
+/-- a DEFAULT: a number, or `{"nonnum": kind}` for `None` / `""` / `()` — values no int/float entry
+    equals; they are represented by odd sentinels far outside the range of scaled entries -/
+def pDflt (j : Json) : Except String Int :=
+  match j.getObjVal? "nonnum" with
+  | .ok k => match k with
+    | Json.str "None" => pure (10 ^ 30 + 1)
+    | Json.str "str" => pure (10 ^ 30 + 3)
+    | Json.str "tuple" => pure (10 ^ 30 + 5)
+    | _ => throw "unknown non-numeric default"
+  | .error _ => pVal j
 def jVal (v : Int) : Json := if v % 8 == 0 then jInt (v / 8) else Json.num ⟨v * 125, 3⟩
 
 abbrev N := Nest Int
@@ -149,7 +160,7 @@ def hasDefaultSub (dflt : Int) : (d : Nat) → N d → Bool
 
 def handleFromU (j : Json) : Except String Verdict := do
   let dep ← fNat j "d"
-  let dflt ← pVal (← field j "dflt")
+  let dflt ← pDflt (← field j "dflt")
   let dims ← (← fArr j "dims").mapM (·.getNat?)
   let kind ← fStr j "kind"
   match dep with
@@ -164,6 +175,9 @@ def handleFromU (j : Json) : Except String Verdict := do
     let iShape ← optField impl "shape" (fun s => do (← asList s).mapM (·.getNat?))
     let iUnc ← optField impl "unc" (parseNest (d + 1))
     let iUnc0 ← optField impl "unc0" (parseNest (d + 1))
+    -- the leaf default the built object reports; content / explicit defaults are relative to IT
+    let iDflt ← optField impl "dflt" pDflt
+    let oDflt := iDflt.getD dflt
     -- model
     let mTree := fromUncompressed dflt d nest
     let mShape := if kind == "tensor" then calcShape d nest else fiberShape dflt d nest
@@ -171,14 +185,16 @@ def handleFromU (j : Json) : Except String Verdict := do
     let mUnc := uncompress owned dflt d dims mTree
     let mUnc0 := if mShape.length == d + 1 then uncompress owned dflt d mShape mTree else none
     let agree := optBeq (treeBeq (d + 1)) iTree (some mTree) && decide (iShape = some mShape) &&
-                 optBeq (nestBeq (d + 1)) iUnc mUnc && optBeq (nestBeq (d + 1)) iUnc0 mUnc0
+                 optBeq (nestBeq (d + 1)) iUnc mUnc && optBeq (nestBeq (d + 1)) iUnc0 mUnc0 &&
+                 (iTree.isNone || iDflt == some dflt)
     -- the property, evaluated on the implementation's observation
     let cl := match iTree with
       | none => [("built", false)]
       | some t =>
         [("sorted", wfB (d + 1) t),
-         ("no-explicit-default", noEmptyB dflt (d + 1) t),
-         ("content", decide (content dflt (d + 1) t = nestContent dflt (d + 1) nest)),
+         ("default", iDflt == some dflt),
+         ("no-explicit-default", noEmptyB oDflt (d + 1) t),
+         ("content", decide (content oDflt (d + 1) t = nestContent dflt (d + 1) nest)),
          ("shape", decide (iShape = some dims)),
          ("uncompress", optBeq (nestBeq (d + 1)) iUnc (some nest)),
          ("uncompress-noarg", optBeq (nestBeq (d + 1)) iUnc0 (some nest))]
@@ -232,7 +248,8 @@ def handleYaml (j : Json) : Except String Verdict := do
   if orig == Json.null then
     -- the object could not even be constructed by the implementation
     return { agree := true, spec := false, why := "built", tags := ["buildFailed", kind] }
-  let dflt ← pVal (← field orig "dflt")
+  let dflt ← pDflt (← field orig "dflt")
+  let reqDflt ← optField orig "req_dflt" pDflt
   let d ← fNat orig "depth"
   let o ← parseLoaded d orig
   let impl ← field j "impl"
@@ -247,7 +264,7 @@ def handleYaml (j : Json) : Except String Verdict := do
     let l ← parseLoaded d c
     let e ← (← field c "eq").getBool?
     pure (l, e))
-  let iLoadedDflt ← optField impl "loaded_dflt" pVal
+  let iLoadedDflt ← optField impl "loaded_dflt" pDflt
   let oFShape := (orig.getObjVal? "fshape").toOption
   let iFShape := (impl.getObjVal? "loaded_fshape").toOption
   -- model
@@ -287,6 +304,10 @@ def handleYaml (j : Json) : Except String Verdict := do
                (iLoadedDflt == mLoadedDflt)
   -- the property on the implementation's observation
   let cl := [("dict-roundtrip-equal", iDictEq)] ++
+    -- the object was built with the default that was asked for (no transform in between)
+    (match reqDflt with
+     | some r => if d ≥ 1 then [("constructed-default", r == dflt)] else []
+     | none => []) ++
     (match iLoaded with
      | none => [("yaml-loads", false)]
      | some l => [("yaml-equal", iEq && iEqRev),
@@ -323,7 +344,9 @@ def two53 : Nat := 2 ^ 53
 def handleRandom (j : Json) : Except String Verdict := do
   let kind ← fStr j "kind"
   let shape ← (← fArr j "shape").mapM (·.getNat?)
-  let dflt ← fInt j "dflt"
+  let dj0 ← field j "dflt"
+  let nonnum := (dj0.getObjVal? "nonnum").toOption.isSome
+  let dflt ← if nonnum then pDflt dj0 else fInt j "dflt"
   let interval ← fInt j "interval"
   let dj ← field j "density"
   let dens ← match dj with
@@ -344,7 +367,8 @@ def handleRandom (j : Json) : Except String Verdict := do
     let iTree ← optField impl "tree" (parseTN (d + 1))
     let iShape ← optField impl "shape" (fun s => do (← asList s).mapM (·.getNat?))
     -- tree leaves are parsed scaled by 8 (see `pVal`): scale the integer draws and the default alike
-    let dfltS := dflt * 8
+    let dfltS := if nonnum then dflt else dflt * 8
+    let iDflt ← optField impl "dflt" pDflt
     let m := fromRandom dfltS d shape dens { us, is := is.map (· * 8) }
     let mTree := m.map (·.1)
     let leftover := match m with
@@ -357,7 +381,8 @@ def handleRandom (j : Json) : Except String Verdict := do
       | none => [("built", false)]
       | some t =>
         [("sorted", wfB (d + 1) t), ("in-shape", inShapeB (d + 1) shape t),
-         ("full-at-density-1", !fullPre || decide (points dfltS (d + 1) t = allPoints shape)),
+         ("default", iDflt == some dfltS),
+         ("full-at-density-1", !fullPre || decide (points (iDflt.getD dfltS) (d + 1) t = allPoints shape)),
          ("tensor-shape", kind != "tensor" || decide (iShape = some shape))]
     let nHit := is.length
     let tags :=
